@@ -1,5 +1,7 @@
 import PyodaProofs.C08
 import PyodaProofs.C08Create
+import PyodaProofs.C08Stepped
+import PyodaProofs.C08StepsWF
 
 #print axioms Pyoda.C08.parseDigits_total
 #print axioms Pyoda.C08.parseFraction_total
@@ -26,3 +28,17 @@ import PyodaProofs.C08Create
 #print axioms Pyoda.C08.compileOffset_total
 #print axioms Pyoda.C08.compile_total
 #print axioms Pyoda.C08.invariantCulture_offsetTextsCustom
+#print axioms Pyoda.C08.parseStep_total
+#print axioms Pyoda.C08.parseSteps_total
+#print axioms Pyoda.C08.parseCompiled_total
+#print axioms Pyoda.C08.parsePat_total
+#print axioms Pyoda.C08.compileCustom_modelled
+#print axioms Pyoda.C08.time_parse_total
+#print axioms Pyoda.C08.offset_parse_total
+#print axioms Pyoda.C08.date_parse_total
+#print axioms Pyoda.C08.parsePat_offset_valid
+#print axioms Pyoda.C08.timeValue_valid
+#print axioms Pyoda.C08.parseCompiled_time_valid
+#print axioms Pyoda.C08.compileTime_wf
+#print axioms Pyoda.C08.time_success_valid
+#print axioms Pyoda.C08.offset_success_valid
